@@ -98,7 +98,7 @@ func alphaZero(t int) []sym {
 // paramDeltas lists (video kind, component) pairs: the writer's two parameter sets differ in that component only.
 func paramDeltas() [][2]string {
 	return [][2]string{{"h264", "pps"}, {"h264", "sps"}, {"h264", "notiming"}, {"h264", "constraint"}, {"h265", "vps"}, {"h265", "sps"}, {"h265", "pps"},
-		{"vp9", "width"}, {"vp9", "height"}, {"vp9", "profile"}, {"vp9", "bitdepth"}, {"vp9", "chroma"}, {"vp9", "range"}}
+		{"vp9", "width"}, {"vp9", "height"}, {"vp9", "profile"}, {"vp9", "bitdepth"}, {"vp9", "chroma"}, {"vp9", "range"}, {"av1", "color"}}
 }
 
 func alphaInterleave(cfg muxCfg) []sym {
